@@ -1,5 +1,6 @@
 import MdkVerif.Model.Client
 import MdkVerif.Proofs.Client
+import MdkVerif.Props.C01Fork
 /-
   C01 — Members converge on one MIP-03-selected group state under races and reordering.
   This file: the MIP-03 order and its agreement with `is_better_candidate`; what one client does with
@@ -104,5 +105,64 @@ theorem single_fork_full_false : ¬ single_fork_full := by
     (fun c => (merge (stageCommit c 1 20 7 .selfUpdate false).1).1) rfl rfl (by decide)
   -- … but not for the committer that merged immediately
   revert h2; decide
+
+/-! ### the general single-fork theorems (proved in Props/C01Fork.lean; restated here so that this
+    module's audit — `#print axioms` on every theorem of the file — covers them) -/
+
+open MdkVerif.Fork MdkVerif.Props.C01Fork in
+theorem single_fork_bystander (c : Cl) (S : List Ev) (l : List Ev) (nx : Nat)
+    (hg : c.hasGroup = true) (hr : 1 ≤ c.retention) (hsec : SecretsOK c.g) (hm : NoForkSnapshot c)
+    (hS : Siblings c S) (hl : ∀ e ∈ l, e ∈ S) (hne : l ≠ []) :
+    ∃ w ∈ l, (∀ e ∈ l, e = w ∨ klt (key w) (key e) = true) ∧
+      (l.foldl (fun c e => (deliver c e nx).1) c).g.path = c.g.path ++ [w.cipher] ∧
+      wc (l.foldl (fun c e => (deliver c e nx).1) c).g [] = wc (childG c w) [] ∧
+      (getRec (l.foldl (fun c e => (deliver c e nx).1) c) w.n).map (·.state) = some 2 ∧
+      ∀ e ∈ l, e ≠ w → ∃ r, getRec (l.foldl (fun c e => (deliver c e nx).1) c) e.n = some r ∧ (r.state = 3 ∨ r.state = 4) :=
+  C01Fork.single_fork_bystander c S l nx hg hr hsec hm hS hl hne
+
+open MdkVerif.Fork MdkVerif.Props.C01Fork in
+theorem single_fork_committer (c : Cl) (o : Ev) (S : List Ev) (l : List Ev) (nx : Nat)
+    (hg : c.hasGroup = true) (hr : 1 ≤ c.retention) (hsec : SecretsOK c.g) (hm : NoForkSnapshot c)
+    (ho : OwnCommit c o) (hS : Siblings c S)
+    (hd : ∀ e ∈ S, e.n ≠ o.n ∧ (e.ts, e.idnum) ≠ (o.ts, o.idnum))
+    (hl : ∀ e ∈ l, e ∈ o :: S) (hne : l ≠ []) :
+    ∃ w ∈ l, (∀ e ∈ l, e = w ∨ klt (key w) (key e) = true) ∧
+      (l.foldl (fun c e => (deliver c e nx).1) c).g.path = c.g.path ++ [w.cipher] ∧
+      wc (l.foldl (fun c e => (deliver c e nx).1) c).g [] = wc (childG c w) [] ∧
+      (l.foldl (fun c e => (deliver c e nx).1) c).g.pending = none ∧
+      (getRec (l.foldl (fun c e => (deliver c e nx).1) c) w.n).map (·.state) = some 2 ∧
+      ∀ e ∈ l, e ≠ w → e ≠ o → ∃ r, getRec (l.foldl (fun c e => (deliver c e nx).1) c) e.n = some r ∧ (r.state = 3 ∨ r.state = 4) :=
+  C01Fork.single_fork_committer c o S l nx hg hr hsec hm ho hS hd hl hne
+
+/-- DESIGN's `secrets_follow_path` (and "no snapshot of the current epoch"): invariants of every history -/
+theorem secrets_follow_path (id : Nat) (p : Bool) (r : Nat) (ms as : List Nat) (name : Nat) (ops : List C08.COp) :
+    C01Fork.SecretsOK (ops.foldl C08.cstep (initCl id p r ms as name)).g ∧
+    C01Fork.NoForkSnapshot (ops.foldl C08.cstep (initCl id p r ms as name)) ∧
+    ∀ s ∈ (ops.foldl C08.cstep (initCl id p r ms as name)).mgr, C01Fork.SecretsOK s.saved :=
+  C01Fork.secrets_follow_path id p r ms as name ops
+
+open MdkVerif.Fork MdkVerif.Props.C01Fork in
+/-- staging + publishing a commit establishes the committer theorem's hypotheses -/
+theorem stage_own_commit (c : Cl) (n ts idn : Nat) (b : Body) (na : Bool) (o : Ev)
+    (hts : ts ≠ 0) (hsec : SecretsOK c.g) (hm : NoForkSnapshot c)
+    (h : (stageCommit c n ts idn b na).2 = .ev o) :
+    OwnCommit (stageCommit c n ts idn b na).1 o ∧ SecretsOK (stageCommit c n ts idn b na).1.g ∧
+    NoForkSnapshot (stageCommit c n ts idn b na).1 ∧ (stageCommit c n ts idn b na).1.g.path = c.g.path :=
+  C01Fork.stage_own_commit c n ts idn b na o hts hsec hm h
+
+open MdkVerif.Fork MdkVerif.Props.C01Fork in
+/-- the bystander theorem for every client state reachable by any history of API calls -/
+theorem single_fork_reachable (id : Nat) (p : Bool) (r : Nat) (ms as : List Nat) (name : Nat) (ops : List C08.COp)
+    (S l : List Ev) (nx : Nat)
+    (hg : (ops.foldl C08.cstep (initCl id p r ms as name)).hasGroup = true)
+    (hr : 1 ≤ (ops.foldl C08.cstep (initCl id p r ms as name)).retention)
+    (hS : Siblings (ops.foldl C08.cstep (initCl id p r ms as name)) S) (hl : ∀ e ∈ l, e ∈ S) (hne : l ≠ []) :
+    ∃ w ∈ l, (∀ e ∈ l, e = w ∨ klt (key w) (key e) = true) ∧
+      (l.foldl (fun c e => (deliver c e nx).1) (ops.foldl C08.cstep (initCl id p r ms as name))).g.path =
+        (ops.foldl C08.cstep (initCl id p r ms as name)).g.path ++ [w.cipher] :=
+  C01Fork.single_fork_reachable id p r ms as name ops S l nx hg hr hS hl hne
+
+/-- the excluded configuration of the bystander theorem: retention 0 -/
+theorem single_fork_needs_retention : ¬ C01Fork.single_fork_bystander_full := C01Fork.single_fork_bystander_full_false
 
 end MdkVerif.Props.C01
